@@ -307,6 +307,9 @@ func runWorker(p *Property, tier string, w, nw int, journal string) {
 		c.layer, c.stat = L, &st
 		for u := 0; u < L.Units; u++ {
 			uidx++
+			if only := os.Getenv("VERIF_ONLY_LAYER"); only != "" && !strings.HasPrefix(L.Name, only) {
+				continue // debugging aid (timing one layer); never set by the registered commands
+			}
 			if uidx%nw != w {
 				continue
 			}
